@@ -1,12 +1,12 @@
 (** C16 — Ribbon position is the average of the current press only.
     Only the property theorems; proofs are in Proofs/RibbonProofs.v (window) and
     Proofs/RibbonValueProofs.v (range / bounds, floating point). *)
-From Coq Require Import ZArith Bool List.
+From Coq Require Import ZArith Bool List Reals.
 Import ListNotations.
-From SU Require Import F32.
+From SU Require Import F32 F32Lemmas.
 From SU.Model Require Import Ribbon.
 From SU.Spec Require Import RibbonSpec.
-From SU.Proofs Require Import RibbonProofs.
+From SU.Proofs Require Import RibbonProofs RibbonValueProofs.
 Open Scope Z_scope.
 
 (** the ring buffer yields the last [cap] written values, oldest first *)
@@ -34,6 +34,46 @@ Theorem C16_retained : forall cap fs sp dr pu samples x,
   rb_val (polls r0 (samples ++ [x])) = rb_val (polls r0 samples).
 Proof. exact value_retained. Qed.
 
+(** ** the value itself (floating point) *)
+
+(** value() always lies in [0, 1] (after any history, pressing or not) *)
+Theorem C16_value_range : forall cap fs sp dr pu samples,
+  let r0 := ribbon_new cap fs sp dr pu in
+  config_ok r0 -> Forall sample_ok samples ->
+  let r := polls r0 samples in
+  fin (ribbon_value r) /\ (0 <= R32 (ribbon_value r) <= 1)%R.
+Proof. exact value_range. Qed.
+
+(** while a press is reported the stored value is the pull-up-corrected mean of the
+    contributing samples (the oldest cap - discard samples of the capture window), up to
+    the f32 rounding of the average *)
+Theorem C16_value_is_corrected_mean : forall cap fs sp dr pu samples,
+  let r0 := ribbon_new cap fs sp dr pu in
+  config_ok r0 -> Forall sample_ok samples ->
+  rb_pressing (polls r0 samples) = true ->
+  let W := firstn (Z.to_nat (Z.of_nat cap - rb_discard r0)) (window r0 samples) in
+  (Rabs (R32 (rb_val (polls r0 samples)) - corr_R (R32 (rb_err r0)) (mean_R W)) <= tau r0)%R.
+Proof. exact value_is_corrected_mean. Qed.
+
+(** consequences in the reals: the corrected mean lies between the corrected minimum and
+    maximum of the contributing samples, and does not decrease when a contributing sample
+    increases (the correction p - (p - p^2) e is monotone for e in [0, 1]) *)
+Theorem C16_between : forall e (W : list f32) lo hi,
+  (0 <= e <= 1)%R -> W <> [] ->
+  (forall x, In x W -> (0 <= lo <= R32 x)%R /\ (R32 x <= hi <= 1)%R) ->
+  (corr_R e lo <= corr_R e (mean_R W) <= corr_R e hi)%R.
+Proof. exact corrected_mean_between. Qed.
+
+Theorem C16_monotone : forall e (W1 W2 : list f32) (x y : f32),
+  (0 <= e <= 1)%R -> (forall z, In z (W1 ++ x :: y :: W2) -> (0 <= R32 z <= 1)%R) ->
+  (R32 x <= R32 y)%R ->
+  (corr_R e (mean_R (W1 ++ x :: W2)) <= corr_R e (mean_R (W1 ++ y :: W2)))%R.
+Proof. exact corrected_mean_monotone. Qed.
+
 Print Assumptions C16_histbuf.
 Print Assumptions C16_value_window.
 Print Assumptions C16_retained.
+Print Assumptions C16_value_range.
+Print Assumptions C16_value_is_corrected_mean.
+Print Assumptions C16_between.
+Print Assumptions C16_monotone.
